@@ -9,6 +9,10 @@
 #include <archive.h>
 #include <archive_entry.h>
 #include "archive_write_private.h"
+#include <sys/stat.h>
+#include <sys/syscall.h>
+#include <fcntl.h>
+#include <dlfcn.h>
 #if defined(__SANITIZE_ADDRESS__)
 #include <sanitizer/lsan_interface.h>
 #define HAVE_LSAN 1
@@ -24,7 +28,6 @@ static int leaked;   /* a `leakcheck` op already reported a leak: skip LSan's at
 /* per-call event log */
 static size_t ev_n; static uint64_t ev_h; static int ev_bad;
 static size_t *ev_sz; static size_t ev_cap;
-static uint64_t acc_h = 14695981039346656037ULL; static size_t acc_len;
 
 /* memory sink */
 static unsigned char *mem_block; static size_t mem_block_size, mem_used; static int mem_mode;
@@ -54,6 +57,67 @@ static int is_raw, has_filter, ever_bad; static unsigned char *rawbuf; static si
 
 static uint64_t mix(uint64_t h, uint64_t x) { return (h ^ x) * 1099511628211ULL; }
 
+/* Library-provided sinks (archive_write_open_fd / _filename / _FILE): the system call underneath
+ * is scripted.  k > 0: accept at most k bytes; 0: return 0; -1: fail with EIO; -2: fail with EINTR.
+ * What the "kernel" accepted is really stored in the file and is the accepted stream (acc). */
+static int sys_mode;            /* 0 none, 1 fd, 2 filename, 3 FILE */
+static int sys_fd = -1; static FILE *sys_FILE; static char sys_path[300];
+static long long sysans[MAXANS]; static int nsys, cursys;
+static size_t sys_n, sys_short, sys_eintr; static uint64_t sys_h = 14695981039346656037ULL;
+static uint64_t acc_h; static size_t acc_len;
+static size_t (*real_fwrite)(const void *, size_t, size_t, FILE *);
+
+static long long sys_answer(int fd, const void *buf, size_t len)
+{
+	long long r, code; int e = 0;
+	if (cursys >= nsys) r = (long long)len;
+	else {
+		long long k = sysans[cursys++];
+		if (k > 0) r = (size_t)k < len ? k : (long long)len;
+		else if (k == 0) r = 0;
+		else if (k == -1) { r = -1; e = EIO; }
+		else { r = -1; e = EINTR; sys_eintr++; }
+	}
+	code = (e == EINTR) ? -2 : r;
+	if (r > 0 && (size_t)r < len) sys_short++;
+	sys_n++;
+	sys_h = (((sys_h ^ vh_fnv(buf, len)) * 1099511628211ULL ^ (uint64_t)len) * 1099511628211ULL ^ (uint64_t)(code + 1000)) * 1099511628211ULL;
+	if (r > 0) {
+		const unsigned char *b = buf;
+		for (long long i = 0; i < r; i++) { acc_h ^= b[i]; acc_h *= 1099511628211ULL; }
+		acc_len += (size_t)r;
+		if (fd < 0) { if (real_fwrite) real_fwrite(buf, 1, (size_t)r, sys_FILE); }
+		else if (syscall(SYS_write, fd, buf, (size_t)r) != r) r = -1, e = EIO;
+	}
+	errno = e;
+	return r;
+}
+
+static int sys_target(int fd)
+{
+	struct stat a1, a2;
+	if (sys_mode == 1) return fd == sys_fd;
+	if (sys_mode == 2) return fstat(fd, &a1) == 0 && stat(sys_path, &a2) == 0 && a1.st_dev == a2.st_dev && a1.st_ino == a2.st_ino;
+	return 0;
+}
+
+ssize_t write(int fd, const void *buf, size_t n)
+{
+	if (sys_mode && sys_target(fd))
+		return (ssize_t)sys_answer(fd, buf, n);
+	return (ssize_t)syscall(SYS_write, fd, buf, n);
+}
+
+size_t fwrite(const void *p, size_t sz, size_t n, FILE *f)
+{
+	if (!real_fwrite) real_fwrite = (size_t (*)(const void *, size_t, size_t, FILE *))dlsym(RTLD_NEXT, "fwrite");
+	if (sys_mode == 3 && f == sys_FILE && sz == 1) {
+		long long r = sys_answer(-1, p, n);
+		return r > 0 ? (size_t)r : 0;
+	}
+	return real_fwrite(p, sz, n, f);
+}
+
 static void ev_reset(void) { ev_n = 0; ev_h = 14695981039346656037ULL; ev_bad = 0; }
 
 static void ev_record(const void *buf, size_t len, long long ret)
@@ -62,7 +126,7 @@ static void ev_record(const void *buf, size_t len, long long ret)
 	ev_sz[ev_n++] = len;
 	ev_h = mix(mix(mix(ev_h, vh_fnv(buf, len)), (uint64_t)len), (uint64_t)(ret + 1000));
 	if (ret <= 0) ev_bad = 1;
-	if (ret > 0) {
+	if (ret > 0 && !sys_mode) {
 		const unsigned char *b = buf;
 		for (long long i = 0; i < ret; i++) { acc_h ^= b[i]; acc_h *= 1099511628211ULL; }
 		acc_len += (size_t)ret;
@@ -95,6 +159,7 @@ static la_ssize_t mem_wrap_cb(struct archive *x, void *d, const void *buf, size_
 	return r;
 }
 
+static const char *tail_extra = "";
 static void tail(void)
 {
 	printf(" ev=%zu sz=", ev_n);
@@ -114,12 +179,15 @@ static void tail(void)
 		printf(" stream=%s", hh == acc_h ? "ok" : "BAD");
 	}
 	if (ev_bad) ever_bad = 1;
+	if (sys_mode)
+		printf(" sys=%zu short=%zu eintr=%zu sh=%llu", sys_n, sys_short, sys_eintr, (unsigned long long)sys_h);
 	if (mem_mode) {
 		/* nothing may be stored at or beyond `used` */
 		int clean = 1;
 		for (size_t i = mem_used; i < mem_block_size; i++) if (mem_block[i] != 0xA5) clean = 0;
 		printf(" used=%zu%s", mem_used, clean ? "" : " TAIL-CLOBBERED");
 	}
+	fputs(tail_extra, stdout); tail_extra = "";
 	putchar('\n');
 }
 
@@ -128,6 +196,7 @@ static void c_begin(void)
 	a = NULL; nans = curans = 0; opener_ret = 0; freed = 0; leaked = 0; mem_mode = 0; mem_block = NULL; mem_used = 0;
 	acc_h = 14695981039346656037ULL; acc_len = 0; ev_reset();
 	is_raw = has_filter = ever_bad = 0; rawlen = 0;
+	sys_mode = 0; sys_fd = -1; sys_FILE = NULL; nsys = cursys = 0; sys_n = sys_short = sys_eintr = 0; sys_h = 14695981039346656037ULL;
 }
 
 static unsigned filetype_of(const char *s)
@@ -215,6 +284,34 @@ static void c_op(char *line)
 		struct archive_write *aw = (struct archive_write *)a;
 		if (aw->client_writer != NULL && aw->client_writer != mem_wrap_cb) { orig_writer = aw->client_writer; aw->client_writer = mem_wrap_cb; }
 		printf("open %s", vh_st(r)); tail();
+	} else if (n >= 1 && !strcmp(w[0], "sys")) {
+		nsys = cursys = 0;
+		for (int i = 1; i < n && nsys < MAXANS; i++) {
+			if (w[i][0] == 'a') sysans[nsys++] = strtoll(w[i] + 1, NULL, 10);
+			else if (w[i][0] == 'A') sysans[nsys++] = 1000000000LL;
+			else if (w[i][0] == 'z') sysans[nsys++] = 0;
+			else if (w[i][0] == 'e') sysans[nsys++] = -1;
+			else if (w[i][0] == 'i') sysans[nsys++] = -2;
+			else { printf("bad-op\n"); return; }
+		}
+		printf("ok\n");
+	} else if (n == 1 && (!strcmp(w[0], "openfd") || !strcmp(w[0], "openfile") || !strcmp(w[0], "openFILE"))) {
+		/* a regular temporary file; the write(2)/fwrite underneath is scripted */
+		const char *td = getenv("TMPDIR");
+		snprintf(sys_path, sizeof sys_path, "%s/verif_cw_XXXXXX", td && *td ? td : "/tmp");
+		int fd = mkstemp(sys_path);
+		int r;
+		if (fd < 0) { printf("bad-op\n"); return; }
+		scribble();
+		if (!strcmp(w[0], "openfd")) { sys_mode = 1; sys_fd = fd; unlink(sys_path); r = archive_write_open_fd(a, fd); }
+		else if (!strcmp(w[0], "openfile")) { close(fd); sys_mode = 2; r = archive_write_open_filename(a, sys_path); }
+		else { sys_mode = 3; sys_fd = fd; sys_FILE = fdopen(fd, "w+"); unlink(sys_path); r = archive_write_open_FILE(a, sys_FILE); }
+		struct archive_write *aw = (struct archive_write *)a;
+		if (aw->client_writer != NULL && aw->client_writer != mem_wrap_cb) { orig_writer = aw->client_writer; aw->client_writer = mem_wrap_cb; }
+		printf("open %s", vh_st(r)); tail();
+	} else if (n == 2 && !strcmp(w[0], "pass")) {
+		char *p = cstr(w[1]);
+		printf("pass %s\n", vh_st(archive_write_set_passphrase(a, p))); free(p);
 	} else if (n == 13 && !strcmp(w[0], "header")) {
 		struct archive_entry *e = archive_entry_new();
 		char *p = cstr(w[2]); archive_entry_copy_pathname(e, p); free(p);
@@ -240,17 +337,23 @@ static void c_op(char *line)
 		int r = archive_write_header(a, e);
 		archive_entry_free(e);
 		printf("header %s", vh_st(r)); tail();
-	} else if ((n == 2 && !strcmp(w[0], "data")) || (n == 3 && !strcmp(w[0], "fill"))) {
+	} else if ((n == 2 && !strcmp(w[0], "data")) || (n == 3 && (!strcmp(w[0], "fill") || !strcmp(w[0], "rand")))) {
 		size_t len; unsigned char *b;
 		if (w[0][0] == 'd') b = vh_unhex(w[1], &len);
-		else {
+		else if (w[0][0] == 'r') {
+			/* incompressible bytes: x' = (1103515245 x + 12345) mod 2^31, byte = x >> 16 */
+			len = (size_t)strtoull(w[1], NULL, 10); uint64_t x = strtoull(w[2], NULL, 10) & 0x7fffffff;
+			b = malloc(len ? len : 1);
+			for (size_t i = 0; i < len; i++) { x = (x * 1103515245ULL + 12345ULL) & 0x7fffffffULL; b[i] = (unsigned char)(x >> 16); }
+		} else {
 			len = (size_t)strtoull(w[1], NULL, 10); size_t seed = (size_t)strtoull(w[2], NULL, 10);
 			b = malloc(len ? len : 1);
 			for (size_t i = 0; i < len; i++) b[i] = (unsigned char)((seed + i * 7 + i / 256) & 0xff);
 		}
 		if (is_raw && ((struct archive_write *)a)->archive.state == ARCHIVE_STATE_DATA) {
 			if (rawlen + len > rawcap) { rawcap = (rawlen + len) * 2 + 64; rawbuf = realloc(rawbuf, rawcap); }
-			memcpy(rawbuf + rawlen, b, len); rawlen += len;
+			if (len) memcpy(rawbuf + rawlen, b, len);
+			rawlen += len;
 		}
 		scribble();
 		la_ssize_t r = archive_write_data(a, b, len);
@@ -268,13 +371,25 @@ static void c_op(char *line)
 	} else if (n == 1 && !strcmp(w[0], "free")) {
 		scribble();
 		int r = archive_write_free(a); freed = 1;
-		printf("free %s", vh_st(r)); tail();
+		printf("free %s", vh_st(r));
+		if (sys_mode) {
+			/* what is in the file is what the scripted system call accepted */
+			int fd = sys_mode == 2 ? open(sys_path, O_RDONLY) : sys_fd;
+			if (sys_mode == 3) fflush(sys_FILE);
+			uint64_t hh = 14695981039346656037ULL; size_t tot = 0; unsigned char blk[4096]; ssize_t k; off_t off = 0;
+			while (fd >= 0 && (k = pread(fd, blk, sizeof blk, off)) > 0) { for (ssize_t i = 0; i < k; i++) { hh ^= blk[i]; hh *= 1099511628211ULL; } tot += (size_t)k; off += k; }
+			tail_extra = (tot == acc_len && hh == acc_h) ? " file=ok" : " file=BAD";
+			if (sys_mode == 2) { if (fd >= 0) close(fd); unlink(sys_path); }
+		}
+		tail();
 	} else printf("bad-op\n");
 }
 
 static void c_end(void)
 {
 	if (a && !freed) archive_write_free(a);
+	if (sys_mode == 3 && sys_FILE) fclose(sys_FILE); else if (sys_mode == 1 && sys_fd >= 0) close(sys_fd);
+	if (sys_mode == 2) unlink(sys_path);
 	free(mem_block); free(ev_sz); ev_sz = NULL; ev_cap = 0; free(rawbuf); rawbuf = NULL; rawcap = 0;
 	if (leaked && !vh_nofork) { fflush(stdout); _exit(0); }
 }
